@@ -92,7 +92,7 @@ def eval_pair(task: tuple) -> dict:
 
     doc_cause = "comma_in_pattern_in_union" if comma_pattern_in_union(doc) else "none"
     req_nullable = required_nullable_names(doc)
-    arr_def = any(isinstance(v, dict) and v.get("type") == "array" and ("minItems" in v or "maxItems" in v) for v in (doc.get("definitions") or {}).values())
+    arr_def = any(isinstance(v, dict) and v.get("type") == "array" for v in (doc.get("definitions") or {}).values())
     insts = semgen.valid_instances(doc)
     muts = []
     for inst in insts[:3]:
@@ -110,7 +110,7 @@ def eval_pair(task: tuple) -> dict:
         for name, gopts, hopts in variants:
             out["evals"] += 1
             hit(f"option:{name}")
-            cls0 = {"option": name, "style": style, "cause": doc_cause, "constrained_array_def": arr_def}
+            cls0 = {"option": name, "style": style, "cause": doc_cause, "array_def": arr_def}
             inp = {"doc": doc, "style": style, "option": name}
             v = semrun.build(doc, style, gopts, formatters=hopts.get("formatters"), target=hopts.get("target"))
             if not v.ok:
